@@ -500,6 +500,26 @@ mod tests {
     }
 }
 
+/// Altitude of a 13-bit AC field (DF0/4/16/20) when it is a plain 25-ft code (M = 0, Q = 1):
+/// `Some(Some(ft))`, `Some(None)` when the value would be below 0 ft; `None` for every other encoding
+/// (metric, Gillham, all-zero) - those are not judged here.
+pub fn alt_of_ac13_q1(ac13: u64) -> Option<Option<u32>> {
+    let m = (ac13 >> 6) & 1;
+    let q = (ac13 >> 4) & 1;
+    if m != 0 || q != 1 { return None; }
+    let n = ((ac13 & 0x1F80) >> 2) | ((ac13 & 0x20) >> 1) | (ac13 & 0xF);
+    let ft = 25 * n as i64 - 1000;
+    Some(if ft >= 0 { Some(ft as u32) } else { None })
+}
+
+/// The same for the 12-bit field of airborne-position squitters (no M bit).
+pub fn alt_of_ac12_q1(ac12: u64) -> Option<Option<u32>> {
+    if (ac12 >> 4) & 1 != 1 { return None; }
+    let n = ((ac12 & 0xFE0) >> 1) | (ac12 & 0xF);
+    let ft = 25 * n as i64 - 1000;
+    Some(if ft >= 0 { Some(ft as u32) } else { None })
+}
+
 /// Squawk (four octal digits as a decimal number ABCD) of a 13-bit identity field.
 pub fn squawk_of_id13(id: u64) -> u32 {
     let b = |k: u32| ((id >> (12 - k)) & 1) as u32; // k = 0 is the first bit (C1)
